@@ -93,6 +93,25 @@ def feecheck (_ : Unit) (toks : List String) : Unit × String :=
       ((), s!"ok fee={f} prio={prio}")
   | _ => ((), "bad-op")
 
+def hexOf (bz : List Nat) : String :=
+  String.ofList (bz.foldr (fun b acc => (Nat.toDigits 16 (b / 16 % 16)) ++ (Nat.toDigits 16 (b % 16)) ++ acc) [])
+
+/-- `tik h=<int64> i=<int32>`: `indexer.TxIndexKey` as translated; `gm c= op= a=`: the Ethereum transaction gas meter as translated -/
+def genfuncs (_ : Unit) (toks : List String) : Unit × String :=
+  match toks with
+  | "tik" :: rest =>
+    match indexer_TxIndexKey (kvInt rest "h") (kvInt rest "i") with
+    | some k => ((), hexOf k)
+    | none => ((), "panic")
+  | "gm" :: rest =>
+    let g : types_infiniteGasMeterWithLimit := { consumed := kvNat rest "c" }
+    let r := if (kv rest "op") == some "consume" then types_infiniteGasMeterWithLimit_ConsumeGas g (kvNat rest "a") "op"
+             else types_infiniteGasMeterWithLimit_RefundGas g (kvNat rest "a") "op"
+    match r with
+    | some g' => ((), toString g'.consumed)
+    | none => ((), "panic")
+  | _ => ((), "bad-op")
+
 end GenDriver
 
 def main (args : List String) : IO UInt32 := do
@@ -102,4 +121,5 @@ def main (args : List String) : IO UInt32 := do
   | ["feemarket"] => Driver.loop stdin stdout GenDriver.feemarket (); return 0
   | ["binsearch"] => Driver.loop stdin stdout GenDriver.binsearch (); return 0
   | ["feecheck"] => Driver.loop stdin stdout GenDriver.feecheck (); return 0
+  | ["genfuncs"] => Driver.loop stdin stdout GenDriver.genfuncs (); return 0
   | _ => IO.eprintln "usage: gendriver <engine>"; return 2
